@@ -18,10 +18,18 @@ CHECKS = {
         technique="semantic classification of schedule walkers (cursor start/step provenance) + vtable-resolved dispatch check + may-write frame of the Mantis mode switch",
         text="Decides structural necessary conditions of 'decrypt inverts encrypt', not the algebra: every *_encrypt entry point and vtable slot 0 reaches only functions that walk the key schedule forward from entry 0, every *_decrypt entry point and slot 1 only functions that walk it backward from rounds-1 (including the scalar tails the 128-block test never executes); each walk starts at the right end and visits exactly `rounds` entries of the same object's rounds field; mantis_swap_modes writes exactly k0, k0prime and k1 (tweak and rounds preserved) and the parallel wrapper applies it to the object's own context. NOT decided: that the inverse S-boxes, inverse rounds and the alpha/k0' algebra are inverses (value facts).",
         note=NOTE),
+    "C04": dict(
+        technique="typestate/dominance check of the shadow-tweak protocol + byte-range definite-initialisation of the stored tweak + must-store summaries + call-argument constants/identity along enumerated paths",
+        text="Decides necessary structural conditions of history independence, not the algebra: in both set_tweak functions the old tweak is saved (all bytes) before the field is overwritten, the field is then fully rewritten as argument bytes followed by zeros (NULL never dereferenced, zero-filled), the xor-out pass takes the saved copy and the xor-in pass the rewritten field, both through the same routine on the same schedule, which steps the tweakey permutation once per round under the rounds bound like the TK1 setter; a fresh tweaked schedule zero-fills the stored tweak and passes that field as TK1 with domain flag 1 (untweaked: key, flag 0); the CTR tweak entry points of every back end hand the caller's arguments unchanged to the core functions on their own schedule and invalidate the buffered keystream; tweaked round counts are 48/56 (36/40). NOT decided: linearity of the TK1 schedule (that xor-out/xor-in equals a fresh schedule).",
+        note=NOTE + " Recognised protocol shape: copy old; rewrite field; xor(old copy); xor(field); another shape is reported as not modelled (exit 2), never as a violation."),
     "C05": dict(
         technique="must-store summaries for the invalidation protocol + path-by-path abstract evaluation (linear forms over SSA atoms) of the seven CTR encrypt loops + call-site constant sets for lane advance/stagger + definite-initialisation of the counter load",
         text="Decides the buffering protocol that makes the output independent of how the data is cut into calls, for all 7 back ends, with BATCH taken from sizeof(ecounter): every setter and init leaves the buffer exhausted on all success paths; each refill encrypts counter->ecounter under the context's own schedule, guarded by offset >= BATCH, and advances every lane exactly once by BATCH/BLOCK; set_counter defines all counter bytes, places the caller's bytes at the end of the block (left zero padding) and staggers lane i by i; on every path through the encrypt loop the keystream bytes [a,a+n) used are followed by offset := a+n with n bounded by the bytes left, a whole batch is only consumed under size >= BATCH, out/in/size cursors move by exactly the bytes consumed, out and in share the same offset; increment helpers walk all block bytes with a fixed trip count. NOT decided: that the buffered bytes equal E(c+i) (value fact).",
         note=NOTE + " Member-extent assumption: a helper handed the address of a struct member writes only inside that member (its own accesses are bounded by C09)."),
+    "C06": dict(
+        technique="sibling comparison of canonical effect/guard summaries across back ends (fields by name) + lane colour analysis of the CTR batch encryptors on -O3 IR + batch-discard reconciliation rule",
+        text="Value equality of the independently written vector round functions is not decided. Decided for every vtable slot of every cipher: the vector back ends' success-path guards, return constants, reject-before-write behaviour and written context fields agree with their generic sibling (a guard present in one and missing in another is reported at the deviant); every CTR batch encryptor writes keystream block b from counter lane b only; vector siblings of one parallel table read the same key-schedule fields. One genuine divergence is reported as known findings (D6, 11 functions): in the 4-/8-lane back ends set_key / set_tweaked_key / set_tweak discard the pre-computed batch without rewinding the lane counters, so after a mid-stream key or tweak change the next block is E(c+L) where the generic back end gives E(c+1) (replay findings/D6_ctr_rekey.c).",
+        note=NOTE + " No run-time probe override hook is needed: all back ends are analysed from source regardless of the host CPU."),
     "C07": dict(
         technique="path-by-path evaluation of the parallel loops (cursor deltas as linear forms) + byte/lane-granular may-dependency (colour) analysis of the vector ECB functions on -O3 IR + extent/parallel_size agreement",
         text="Decides structural necessary conditions of 'parallel == block by block', not the values: in every loop of the six public parallel functions all data cursors (output, input, Mantis tweak) are advanced in that loop by exactly what size decreases by, which is what the callee consumes (ecb->parallel_size for the vtable slot, the block size for the scalar tail), the callee receives the current cursors and the loop guard keeps that many bytes available; parallel_size equals the bytes the selected slot target writes; in the -O3 IR of each of the 7 vector ECB functions every output byte of block b may depend only on input (and tweak) block b and the whole batch is written; encrypt/decrypt dispatch only to forward/backward walkers; non-multiples of the block are rejected and the empty call succeeds without touching memory. NOT decided: equality of the vector and scalar round functions.",
